@@ -11,6 +11,7 @@ import (
 	"syscall"
 
 	"verif/harness/host"
+	"verif/harness/model"
 	"verif/harness/verdict"
 )
 
@@ -26,6 +27,11 @@ var registry = map[string]checkDef{}
 func register(id, level string, fn checkFn) { registry[id] = checkDef{level, fn} }
 
 func main() {
+	if len(os.Args) >= 2 && os.Args[1] == "probe" {
+		probeMain()
+		host.Cleanup()
+		return
+	}
 	if len(os.Args) < 3 {
 		ids := []string{}
 		for k := range registry {
@@ -60,7 +66,13 @@ func main() {
 	func() {
 		defer host.Cleanup()
 		def.fn(r)
+		for _, p := range model.ModelPanics {
+			r.Inconclusive("reference model panicked: " + p)
+		}
 		code = r.Finish()
+		if len(model.ModelPanics) > 0 && code == 0 {
+			code = 2
+		}
 	}()
 	os.Exit(code)
 }
